@@ -78,6 +78,12 @@ def returns_result_of(f, call_bb):
     for bi, u in f.calls():
         if flow.callee_name(u).endswith("Try::branch") and any(s[0] == "call" and len(s) > 3 and s[3] == call_bb for s in sym_walk(f.sym_operand(u["args"][0]))):
             return True
+    # returned through an Err-preserving combinator: `callee(..).map(Ctor)` / map_err / and_then / inspect as the function's value
+    for bi, u in f.calls():
+        d2 = u["dest"]
+        if (d2 if isinstance(d2, int) else d2[0]) == 0 and re.search(r"core::result::Result::(map|map_err|and_then|inspect|inspect_err)$", flow.callee_name(u)) and u["args"]:
+            if any(x[0] == "call" and len(x) > 3 and x[3] == call_bb for x in sym_walk(f.sym_operand(u["args"][0]))):
+                return True
     # moved into _0
     for bi, si, s in f.statements():
         if s[0] == "a" and s[1] == 0 and any(x[0] == "call" and len(x) > 3 and x[3] == call_bb for x in sym_walk(f.sym_rvalue(s[2], 10))):
@@ -112,9 +118,21 @@ def run(tier):
             res.ok(key, "R-CDEP", "%s returns Err exactly on checksum != crc" % v.name)
         else:
             res.violation(key, "%s compares the checksum with the crc field but does not return Err on the mismatch side" % v.path, where="%s:%s" % (v.file, v.line), rule="R-CDEP")
-    entries = [r"^pallas_addresses::byron::ByronAddress::from_bytes$", r"^pallas_addresses::byron::ByronAddress::from_base58$", r"^pallas_addresses::parse_type_8$"]
-    for rx in entries:
-        f = P.one(rx)
+    # entry points: the two public Byron parsers, plus — found by what they do, not by their (private) name — every function of
+    # lib.rs reachable from bytes_to_address that hands a byte slice to a ByronAddress parser/decoder (today: parse_type_8)
+    bta0 = P.one(r"^pallas_addresses::bytes_to_address$")
+    byron_feeders = []
+    for p_, (g, _) in P.closure_of([bta0]).items():
+        if g.path.startswith("pallas_addresses::byron::") or g is bta0:
+            continue
+        for bi, t in g.calls():
+            n = flow.callee_name(t)
+            if re.search(r"byron::ByronAddress::(from_bytes|from_base58)$", n) or (re.search(r"minicbor::decode$|Decoder::decode$", n) and any("byron::ByronAddress" in x for x in t.get("targs", []))):
+                byron_feeders.append(g)
+                break
+    res.floor("Byron parse paths below bytes_to_address", len(byron_feeders), 1)
+    entry_fns = [P.one(r"^pallas_addresses::byron::ByronAddress::from_bytes$"), P.one(r"^pallas_addresses::byron::ByronAddress::from_base58$")] + byron_feeders
+    for f in entry_fns:
         ok, why = ok_returns_guarded(P, f, verifiers)
         key = "entry:%s" % f.path.split("pallas_addresses::")[-1]
         if ok:
@@ -122,11 +140,10 @@ def run(tier):
         else:
             res.violation(key, "%s can return a Byron address without verifying its CRC (%s)" % (f.path, why), where="%s:%s" % (f.file, f.line), rule="R-MPT")
     # the generic entry points dispatch type 8 to parse_type_8 (C18 checks the table); Address::from_bytes etc. go through bytes_to_address
-    bta = P.one(r"^pallas_addresses::bytes_to_address$")
-    if flow.calls_matching(bta, r"^pallas_addresses::parse_type_8$"):
-        res.ok("dispatch:type8", "R-MPT", "bytes_to_address routes type 8 to parse_type_8")
+    if byron_feeders:
+        res.ok("dispatch:type8", "R-MPT", "bytes_to_address reaches a Byron address parser (%s)" % ", ".join(g.name for g in byron_feeders))
     else:
-        res.violation("dispatch:type8", "bytes_to_address no longer routes Byron addresses through parse_type_8", rule="R-MPT")
+        res.violation("dispatch:type8", "bytes_to_address no longer routes Byron addresses to a Byron parser", rule="R-MPT")
     for rx in (r"^pallas_addresses::Address::from_bytes$", r"^pallas_addresses::Address::from_hex$", r"^<pallas_addresses::Address as core::str::traits::FromStr>::from_str$"):
         f = P.one(rx)
         cl = P.closure_of([f])
